@@ -1,6 +1,7 @@
 package rules
 
 import (
+	"strings"
 	"fmt"
 	"go/types"
 	"sort"
@@ -233,8 +234,28 @@ func (F *Facts) resolveCalls() {
 				if com.IsInvoke() {
 					recv := com.Value.Type()
 					name := types.TypeString(recv, func(*types.Package) string { return "" })
+					// an unexported interface declared in the repository is a private seam (`type nodeLoader interface{ load(…) }`
+					// introduced to decouple a helper): only the repository's own types can be behind it, and a call through it
+					// reaches their methods (adv16-E-a4: a loop loading the left spine in LoadMast was invisible to LOADBOUND
+					// because it called load through such an interface). Resolved by class hierarchy over the repository's types.
+					if nt, isNamed := types.Unalias(recv).(*types.Named); isNamed && nt.Obj().Pkg() != nil && isOwnPkgPath(nt.Obj().Pkg().Path()) && !nt.Obj().Exported() {
+						if iface, isI := nt.Underlying().(*types.Interface); isI {
+							for _, cand := range P.Funcs {
+								if cand.Parent() != nil || cand.Name() != com.Method.Name() || cand.Signature.Recv() == nil || cand.Blocks == nil {
+									continue
+								}
+								rt := cand.Signature.Recv().Type()
+								if types.Implements(rt, iface) || types.Implements(types.NewPointer(rt), iface) {
+									F.callees[ci] = append(F.callees[ci], cand)
+								}
+							}
+							if len(F.callees[ci]) > 0 {
+								continue
+							}
+						}
+					}
 					F.external[ci] = name + "." + com.Method.Name()
-					// in-repo implementations of in-repo interfaces are not
+					// in-repo implementations of the repository's exported interfaces are not
 					// followed: the properties treat Persist/NodeCache/Key as
 					// user-supplied.
 					continue
@@ -540,3 +561,5 @@ func (F *Facts) debugOnlyFunc(fn *ssa.Function) string {
 	}
 	return F.debugFuncs[ir.Outermost(fn)]
 }
+
+func isOwnPkgPath(p string) bool { return p == ir.MastPath || strings.HasPrefix(p, ir.MastPath+"/") }
